@@ -1050,8 +1050,52 @@ def _run_formula(spec, res, mg, explore):
 
 
 # ------------------------------------------------------------------ driver
+INT_LANE = """import sys
+import numpy as np
+import mygrad as mg
+from mygrad.nnet.activations import softmax, logsoftmax
+from mygrad.nnet.losses import softmax_crossentropy
+np.seterr(all="ignore")
+bad = []
+DATA = {"int8": [[100, -100, 27], [-128, 127, 0]], "uint8": [[200, 10, 255], [0, 1, 2]], "int16": [[30000, -30000, 5], [1, 2, 3]], "int64": [[3, -4, 5], [0, 0, 0]],
+        "bool": [[True, False, True], [False, False, False]]}
+for dt, rows in DATA.items():
+    x = np.array(rows, dtype=dt)
+    xf = x.astype(np.float64)
+    for name, f in (("softmax", lambda a: softmax(a)), ("softmax(axis=0)", lambda a: softmax(a, axis=0)), ("logsoftmax", lambda a: logsoftmax(a)),
+                    ("softmax_crossentropy", lambda a: softmax_crossentropy(a, np.array([0, 2])))):
+        if dt == "bool" and name == "softmax_crossentropy":
+            continue
+        try:
+            got = np.asarray(f(x).data, dtype=np.float64); want = np.asarray(f(xf).data, dtype=np.float64)
+        except Exception as e:
+            bad.append((name, dt, "raised", type(e).__name__, str(e)[:100])); continue
+        if got.shape != want.shape or not np.allclose(got, want, rtol=2e-3, atol=1e-6, equal_nan=False):
+            bad.append((name, dt, got.tolist(), want.tolist()))
+print(bad)
+print('REPRODUCED' if bad else 'NOT-REPRODUCED'); sys.exit(1 if bad else 0)
+"""
+
+
+def run_intlane(spec, tier, mg):
+    """integer-valued (machine integer!) inputs of the activations: the documented formula on the values, not on wrapped-around differences.
+    A concrete lane on the unpatched library in a child process (the symbolic lanes compute over the reals, where nothing wraps)."""
+    res = common.new_result()
+    path = common.write_replay(PROP, "int_lane", INT_LANE)
+    ok, out = common.run_replay(path, count=False)
+    res["paths"] = 1
+    if ok is True:
+        res["status"] = common.VIOLATION
+        res["violations"].append({"signature": "int-lane", "replay": path, "summary": "softmax/logsoftmax/softmax_crossentropy on small integer dtypes differ from the same call on float64: %s" % (out or "")[:300]})
+    elif ok is None:
+        res["status"] = common.INCONCLUSIVE
+        res["notes"].append("integer lane did not run: %s" % (out or "")[-300:])
+    res["sample"] = {"lane": "softmax, logsoftmax, softmax_crossentropy on int8/uint8/int16/int64/bool inputs at the ends of their ranges vs float64"}
+    return res
+
+
 def cases(tier):
-    return swv_cases(tier) + accept_cases(tier) + value_cases(tier)
+    return swv_cases(tier) + accept_cases(tier) + value_cases(tier) + [{"kind": "intlane", "name": "int-lane"}]
 
 
 def run_case(spec, tier):
@@ -1063,6 +1107,8 @@ def run_case(spec, tier):
         return run_swv_concrete(spec, tier, mg)
     if k == "accept":
         return run_accept(spec, tier)
+    if k == "intlane":
+        return run_intlane(spec, tier, mg)
     return run_values(spec, tier, mg)
 
 
